@@ -98,7 +98,7 @@ let dispatch fn a =
   | "iban_is_valid" -> out string_of_bool' (x_iban_is_valid (Lazy.force banks) (x_clean (t 0)))
   | "iban_from_bban" -> out string_of_text (x_iban_from_bban (Lazy.force banks) (t 0) (t 1) (b 2) (b 3))
   | "iban_formatted" -> string_of_text (x_iban_formatted (x_clean (t 0)))
-  | "spec_iban_accept" -> string_of_bool' (s_iso_ok (x_clean (t 0)))
+  | "spec_iban_accept" -> string_of_bool' (s_iso_ok (s_clean (t 0)))
   | "spec_from_bban" -> "OK " ^ string_of_text (t 0 @ s_check_digits (t 0) (t 1) @ t 1)
   | "re_chars" -> string_of_bool' (x_pat_apply x_chars_method x_chars_pat (t 0))
   | "re_row" ->
@@ -111,7 +111,7 @@ let dispatch fn a =
   | "bic_formatted" -> string_of_text (x_bic_formatted (x_clean (t 0)))
   | "bic_parts" -> string_of_texts (x_bic_parts (x_clean (t 0)))
   | "re_bic" -> string_of_bool' (x_pat_apply (method_of_string a.(1)) (x_bic_pat (b 0)) (t 2))
-  | "spec_bic_accept" -> string_of_bool' (s_iso9362_ok (b 1) (x_clean (t 0)))
+  | "spec_bic_accept" -> string_of_bool' (s_iso9362_ok (b 1) (s_clean (t 0)))
   | "spec_iban_verdict" ->
     (match s_iban_verdict (t 0) with None -> "ACCEPT" | Some l -> "REJECT|" ^ String.concat "|" (List.map exn_name l))
   | "spec_bic_verdict" ->
